@@ -177,10 +177,15 @@ impl<C: Cfg> World<C> {
             }
             _ => {}
         }
-        if C::T::TRACKED {
+        if C::T::COUNTS_CLONES {
             self.expect_clones += n_consumed as u64;
         }
         if r.is_err() || self.dead() {
+            drop(owned);
+            return;
+        }
+        if C::T::COUNTS_CLONES && after_creation != clones0 {
+            self.fail(MON_CLONE, "lazy:clone-on-creation", format!("creating/copying lazy clones ran element Clone {} time(s)", after_creation - clones0));
             drop(owned);
             return;
         }
